@@ -116,6 +116,20 @@ def check(case):
             raise Violation(
                 'not-constant-outside-knots',
                 'f({!r})={!r}, end value {!r}'.format(p, got, want))
+    # integer-typed arguments (whole-millimetre levels written without a
+    # decimal point, np.arange grids) are the same levels
+    whole = [zi for zi in z if float(zi).is_integer()] + [
+        float(int(pv)) for pv in case['probes']]
+    for zi in whole:
+        as_float = float(guarded(f, float(zi)))
+        as_int = float(np.asarray(guarded(f, int(zi)), dtype=float))
+        as_arr = np.asarray(guarded(f, np.array([int(zi)])), dtype=float)
+        if abs(as_int - as_float) > 1e-12 * vmax or abs(
+                float(as_arr[0]) - as_float) > 1e-12 * vmax:
+            raise Violation(
+                'integer-typed-level-differs',
+                'f({})={!r} as int, {!r} in an int array, {!r} as '
+                'float'.format(int(zi), as_int, float(as_arr[0]), as_float))
     # array argument agrees with scalars
     arr = np.array([case['probes'][0], case['probes'][2], case['probes'][1]])
     got_arr = np.asarray(guarded(f, arr), dtype=float)
